@@ -325,3 +325,63 @@ def model_hook(ctx, case, t):
     """MODEL HOOK (main session): the produced cores are core.from_tn(t); compare with the Lean model's cores structurally."""
     if getattr(ctx, "use_model", False) and not getattr(ctx, "search_only", False):
         pass
+
+
+# =============================================================================== correspondence with the Lean model (main session)
+def _corr_cases(rng, tier):
+    n = {"quick": 120, "thorough": 1500, "search": 0}[tier]
+    out = []
+    for _ in range(n):
+        N = rng.randint(1, 6)
+        op = rng.choice(["weight_mask", "weight_one_hot", "weight"])
+        c = {"kind": "corr", "op": op, "N": N}
+        if op == "weight":
+            c["ns"] = rng.randint(2, 4)
+        else:
+            c["nss"] = [rng.randint(2, 4) for _ in range(N)] if rng.random() < 0.5 else [rng.randint(2, 4)] * N
+        if op == "weight_mask":
+            mx = sum(s - 1 for s in c["nss"])
+            k = rng.randint(1, 3)
+            c["W"] = sorted(rng.sample(range(0, mx + 2), min(k, mx + 2)))
+        if op == "weight_one_hot":
+            c["r"] = rng.randint(1, sum(s - 1 for s in c["nss"]) + 2)
+        out.append(c)
+    return out
+
+
+_orig_cases = cases
+_orig_run_case = run_case
+
+
+def cases(rng, tier):  # noqa: F811
+    return _orig_cases(rng, tier) + _corr_cases(rng, tier)
+
+
+def run_case(ctx, case):  # noqa: F811
+    if case.get("kind") != "corr":
+        return _orig_run_case(ctx, case)
+    from core import parse_tensor, cmp_struct, from_tn, safe
+    op, N = case["op"], case["N"]
+    ctx.case(("corr", op, N, tuple(case.get("nss", [])), tuple(case.get("W", [])), case.get("r"), case.get("ns")), True,
+             {"op": "model correspondence: " + op, **{k: v for k, v in case.items() if k not in ("kind", "op")}})
+    ctx.count("corr:" + op)
+    if not (getattr(ctx, "use_model", False) and not getattr(ctx, "search_only", False)):
+        return
+    if op == "weight_mask":
+        r = safe(lambda: tn.automata.weight_mask(N, case["W"], case["nss"]))
+        line = "weight_mask %d %s %d %d %s" % (len(case["W"]), " ".join(map(str, case["W"])), max(case["W"]) + 1, N, " ".join(map(str, case["nss"])))
+    elif op == "weight_one_hot":
+        r = safe(lambda: tn.automata.weight_one_hot(N, case["r"], case["nss"]))
+        line = "weight_one_hot %d %d %s" % (case["r"], N, " ".join(map(str, case["nss"])))
+    else:
+        r = safe(lambda: tn.automata.weight(N, case["ns"]))
+        line = "weight %d %d" % (case["ns"], N)
+    if r[0] == "err":
+        ctx.oracle("%s raised %s: %s" % (op, r[1], r[2]), case); return
+    toks = ctx.drv().call(line)
+    if toks[0] != "ok":
+        ctx.corr("model %s failed: %s" % (op, " ".join(toks[:4])), case); return
+    m = parse_tensor(toks, 1)[0]
+    d = cmp_struct(from_tn(r[1]), m, True)
+    if d is not None:
+        ctx.corr("%s: implementation cores differ from model cores: %s" % (op, d), case)
